@@ -81,6 +81,8 @@ func unsupportedV(t *rapid.T) sb.V {
 		{K: "slice:int", E: []sb.V{{K: "num", N: 1}, {K: "num", N: 2}}}, {K: "array:str", E: []sb.V{{K: "str", S: "x"}}},
 		{K: "map:str:int", KV: []sb.V{{K: "str", S: "k"}}, E: []sb.V{{K: "num", N: 1}}},
 		{K: "nilptr:person"}, {K: "nilptr:int"}, {K: "nilptr:slice"}, {K: "nilptr:map"}, {K: "nilptr:plain"}, {K: "nilptr:string"},
+		// typed nil pointers to types whose interface methods have value receivers
+		{K: "nilptr:stringer"}, {K: "nilptr:number"}, {K: "nilptr:boolean"}, {K: "nilptr:decimal"},
 		{K: "nilslice:int"}, {K: "nilmap:str"}, {K: "person", S: "n", N: 3}, {K: "ptr", E: []sb.V{{K: "plain", N: 1}}},
 		{K: "ptr", E: []sb.V{{K: "person", S: "q", N: 1}}},
 	}
